@@ -146,6 +146,19 @@ class Impl(impl_array.Impl):
             self.stocks.append((t[1], t[2], dims, sv, iv, ov))
             self._built = None
             return "ok"
+        if op == "sys_scale":
+            q = impl_array.num(t[1])
+            sc = lambda vs: [v * q for v in vs]  # noqa: E731
+            self.flows = [(n, a, b, d, sc(v)) for n, a, b, d, v in self.flows]
+            self.stocks = [(n, p_, d, sc(sv), sc(iv), sc(ov)) for n, p_, d, sv, iv, ov in self.stocks]
+            if self._built is not None:
+                # the object the user holds: its arrays are updated in place (a later scenario, other units)
+                for f in self._built.flows.values():
+                    f.values *= q
+                for s_ in self._built.stocks.values():
+                    for a_ in (s_.stock, s_.inflow, s_.outflow):
+                        a_.values *= q
+            return "ok"
         if op == "balance":
             mfa = self.build()
             b = mfa._get_mass_balance()
@@ -164,7 +177,10 @@ class Impl(impl_array.Impl):
                 mfa = self.build()
             except Exception:
                 return "crashed"
-            exc = [] if t[1] == "-" else t[1].split(",")
+            if t[1] == "-":
+                # as users call it: no list of exceptions given at all
+                return self.observe(lambda: mfa.check_flows(raise_error=(t[2] == "1")), "cf")
+            exc = t[1].split(",")
             return self.observe(lambda: mfa.check_flows(exceptions=exc, raise_error=(t[2] == "1")), "cf")
         return super()._exec(t)
 
